@@ -79,6 +79,46 @@ def rule_flag_writers(ctx):
               bad_what="Search::new does not create exactly one atomic flag initialised to `true` (found %s): the search thread would have to set it itself, racing with `stop`" % created)
 
 
+_FLAG_FIELDS = {}
+
+
+def flag_fields(ix):
+    """Names of the fields of `Uci` through which the published running flag is reached: fields whose type holds an
+    `Arc<AtomicBool>`, directly (`search_running: Option<Arc<AtomicBool>>`) or inside a crate struct (`search_task:
+    Option<SearchTask>` with `SearchTask { running: Arc<AtomicBool>, thread: JoinHandle<()> }`)."""
+    key = id(ix)
+    if key in _FLAG_FIELDS:
+        return _FLAG_FIELDS[key]
+
+    def holds(ty, depth=0):
+        if "std::sync::Arc<std::sync::atomic::AtomicBool>" in ty or "Arc<std::sync::atomic::Atomic<bool>>" in ty or ("Arc<" in ty and "AtomicBool" in ty):
+            return True
+        if depth > 3:
+            return False
+        for path, a in ix.adts.items():
+            if path.startswith("uci::") and path in ty and a["kind"] == "Struct":
+                if any(holds(f["ty"], depth + 1) for v in a["variants"] for f in v["fields"]):
+                    return True
+        return False
+    out = set()
+    u = ix.adts.get("uci::Uci")
+    for v in (u or {}).get("variants", []):
+        for f in v["fields"]:
+            if holds(f["ty"]):
+                out.add(f["name"])
+                # ... and, inside a holder struct of the uci module, the flag's own field (read by the holder's methods)
+                for path, a in ix.adts.items():
+                    if path.startswith("uci::") and path != "uci::Uci" and path in f["ty"] and a["kind"] == "Struct":
+                        out |= {g["name"] for w in a["variants"] for g in w["fields"] if holds(g["ty"])}
+    _FLAG_FIELDS[key] = out or {"search_running"}
+    return _FLAG_FIELDS[key]
+
+
+def _mentions_flag_field(ix, e):
+    ff = flag_fields(ix)
+    return any(isinstance(x, tuple) and x[0] == "field" and any(n in ff for n in x[2:]) for x in walk(e))
+
+
 def rule_publish_order(ctx):
     """Uci::go publishes the flag of the *same* Search it moves into the thread, before spawning."""
     ix = ctx.ix
@@ -99,19 +139,25 @@ def rule_publish_order(ctx):
             p = mir.op_place(o)
             if p is not None:
                 captured.add(p["l"])
-    # publication: assignment to self.search_running
+    # publication: assignment to the field of Uci that holds the flag (alone, or together with the join handle)
+    ff = flag_fields(ix)
     pubs = []
     for bi, i, s in b.stmts():
-        if mir.fields_of(s["lhs"])[-1:] == ("search_running",):
+        if s["lhs"]["l"] == 1 and mir.fields_of(s["lhs"])[-1:] and mir.fields_of(s["lhs"])[-1] in ff:
             pubs.append((bi, i, s))
     ctx.check(len(pubs) == 1, "%s:one-publication" % UCI_GO, "Uci::go assigns search_running exactly once", b.where(0),
               bad_what="Uci::go assigns search_running %d times" % len(pubs))
     if len(pubs) != 1:
         return
     pbi, _pi, ps = pubs[0]
-    ctx.check(b.dominates(pbi, sbi) and pbi != sbi or (pbi == sbi), "%s:publish-dominates-spawn" % UCI_GO,
-              "the flag is stored in Uci.search_running on every path before thread::spawn", b.where(pbi),
-              bad_what="thread::spawn is reachable before search_running has been assigned: a `stop` that is processed right after `go` finds no (or the previous) flag")
+    # commands are handled one after the other on the input thread: what matters is that Uci::go does not return with a thread
+    # spawned and no flag published (before the spawn, or - when flag and join handle are stored together - on every way from
+    # the spawn to the return)
+    before = b.dominates(pbi, sbi)
+    after = (not before) and mir.EXIT not in b.reachable_from(sbi, removed={pbi})
+    ctx.check(before or after, "%s:publish-dominates-spawn" % UCI_GO,
+              "the flag is stored in Uci on every path through thread::spawn before Uci::go returns", b.where(pbi),
+              bad_what="Uci::go can return with the thread spawned and the flag not stored: a `stop` that is processed right after `go` finds no (or the previous) flag")
     # same Search object: root local of the cloned flag == captured local
     e = sym.rvalue(ps["rv"])
     roots = set()
@@ -127,6 +173,15 @@ def trace_clone_root(b, rv):
     for _ in range(8):
         if rv.get("k") == "agg" and rv.get("variant") == "Some":
             p = mir.op_place(rv["ops"][0])
+        elif rv.get("k") == "agg" and rv.get("agg") == "adt" and len(rv.get("ops", [])) > 1:
+            # SearchTask { running: clone, thread: handle }: the component that is the flag
+            for o in rv["ops"]:
+                q = mir.op_place(o)
+                d2 = b.single_def(q["l"]) if q is not None and mir.is_local(q) else None
+                r2 = trace_clone_root(b, d2[2]) if d2 else None
+                if r2 is not None:
+                    return r2
+            return None
         elif rv.get("k") == "use":
             p = mir.op_place(rv["a"])
         elif rv.get("k") == "call":
@@ -197,7 +252,7 @@ def rule_stop_arm(ctx):
     for bi, t in b.calls():
         if bi in region and callee_is(t, C.ATOMIC_STORE) and const_int(t["args"][1]) == 0:
             e = sym.operand(t["args"][0])
-            if any(isinstance(x, tuple) and x[0] == "field" and "search_running" in x[2:] for x in walk(e)):
+            if _mentions_flag_field(ix, e):
                 clears.append(bi)
     ctx.check(len(clears) >= 1, "%s:Stop:clears-flag" % EXEC, "the Stop arm stores `false` into Uci.search_running's flag", b.where(clears[0] if clears else entry),
               bad_what="the Stop arm does not store `false` into the flag held in Uci.search_running: `stop` has no effect")
@@ -207,7 +262,7 @@ def rule_stop_arm(ctx):
         for blk in b.blocks:
             if blk.idx in region and blk.term["k"] == "switch":
                 e = sym.operand(blk.term["discr"])
-                if e[0] == "discr" and any(isinstance(x, tuple) and x[0] == "field" and "search_running" in x[2:] for x in walk(e)):
+                if e[0] == "discr" and _mentions_flag_field(ix, e):
                     guards.add(blk.idx)
         avoid = b.reachable_from(entry, removed=set(clears) | guards, include_start=True)
         ctx.check(mir.EXIT not in avoid, "%s:Stop:always-clears-when-published" % EXEC,
@@ -218,9 +273,14 @@ def rule_stop_arm(ctx):
               bad_what="the Stop arm can return Err (lines %s)" % [b.blocks[x].term["line"] for x in sorted(errs)])
 
 
+_IX = {}
+
+
 def _is_flag_load(e):
+    ix = _IX.get("ix")
+    ff = flag_fields(ix) if ix is not None else {"search_running"}
     return (e[0] == "call" and e[1] == C.ATOMIC_LOAD
-            and any(isinstance(x, tuple) and x[0] == "field" and "search_running" in x[2:] for x in walk(e)))
+            and any(isinstance(x, tuple) and x[0] == "field" and any(n in ff for n in x[2:]) for x in walk(e)))
 
 
 def _wrapper_true_implies_flag(ix, key, depth):
@@ -282,6 +342,7 @@ def _local_true_implies_flag(ix, body, local, depth, _seen=None):
 
 def flag_load_guards(ix, body, protect, _depth=0):
     """Blocks switching on a load of the search_running flag whose flag==false edge cannot reach `protect`."""
+    _IX["ix"] = ix
     sym = mir.Sym(body, ix)
     out = []
     for blk in body.blocks:
@@ -478,10 +539,44 @@ def rule_legal_src(ctx):
     c09.rule_legal_src(ctx)
 
 
-RULES = [("flag-writers", rule_flag_writers), ("publish-order", rule_publish_order), ("stop-arm", rule_stop_arm),
+def rule_handle_writers(ctx):
+    """The bookkeeping of the running search in `Uci` (the published flag, the join handle: every field of Uci but the board)
+    changes only where a search is started.  The Go arm's "is a search still running?" test and the Stop arm read it; a path
+    that takes or clears it without starting a search (a refusal that `take()`s the handle) leaves the running search
+    unknown to both: the next `go` starts a second search beside it, a `stop` reaches nothing."""
+    ix = ctx.ix
+    u = ix.adt("uci::Uci")
+    fields = {f["name"] for v in u["variants"] for f in v["fields"]} - {"board"}
+    allowed = {UCI_GO, "uci::Uci::new"}
+    bad = []
+    n = 0
+    for b in ix.fn_bodies():
+        if not (b.key.startswith("uci::") or (b.parent or "").startswith("uci::")):
+            continue
+        owner = b.key if b.kind == "fn" else (b.parent or b.key)
+        for bi, i, s in b.stmts():
+            sites = []
+            fp = mir.fields_of(s["lhs"])
+            if fp and fp[0] in fields and "uci::Uci" in b.locals[s["lhs"]["l"]]["ty"]:
+                sites.append(("store", fp[0]))
+            rv = s["rv"]
+            if rv.get("k") in ("ref", "rawptr") and (rv.get("mut") or rv.get("k") == "rawptr"):
+                fq = mir.fields_of(rv["p"])
+                if fq and fq[0] in fields and "uci::Uci" in b.locals[rv["p"]["l"]]["ty"]:
+                    sites.append(("&mut", fq[0]))
+            for how, fld in sites:
+                n += 1
+                if owner not in allowed:
+                    bad.append((C.short(owner), how, fld, s.get("line")))
+    ctx.check(not bad, "uci::Uci:search-bookkeeping-written-only-by-go", "the fields of Uci that describe the running search (%s) are written only in Uci::go and Uci::new (%d sites)" % (", ".join(sorted(fields)), n), None,
+              bad_what="the running search's bookkeeping is changed outside Uci::go: %s -- a refused `go` or any other command can make the engine forget a search that is still running" % bad[:4])
+    ctx.floor("writes of the search bookkeeping", n, 1)   # two fields on the reference tree, one when flag and handle share a struct
+
+
+RULES = [("handle-writers", rule_handle_writers), ("flag-writers", rule_flag_writers), ("publish-order", rule_publish_order), ("stop-arm", rule_stop_arm),
          ("go-reaches-spawn", rule_go_reaches_spawn), ("no-swallow", rule_no_swallow), ("poll", rule_poll), ("legal-src", rule_legal_src)]
 # `stop` can only be honoured if the thread that reads it is never parked on anything but the input (C15.nonblocking)
-RULES += engine.premise_rules("c15", ["nonblocking"])
+RULES += engine.premise_rules("c15", ["nonblocking", "io-exits"])
 # "exactly one legal bestmove": the text of the move (C14.move-text)
 RULES += engine.premise_rules("c14", ["move-text"])
 
